@@ -230,13 +230,15 @@ def tail_shape_programs():
                     continue
                 calls = ", ".join("f(%s)" % x for x in args)
                 # tail position of a function body; followed by the caller's own code (which must not be re-entered)
-                out.append("stel teller = 0;\nfunctie f(n) { %s }\nteller = teller + 1;\nstel r = [%s];\nteller = teller + 100;\n[r, teller]" % (body, calls))
+                out.append("stel teller = 0;\nfunctie f(n) { %s };\nteller = teller + 1;\nstel r = [%s];\nteller = teller + 100;\n[r, teller]" % (body, calls))
                 # not in tail position: the value of the chain is discarded, the function goes on
-                out.append("functie f(n) { %s; n * 1000 }\n[%s]" % (body, calls))
+                out.append("functie f(n) { %s; n * 1000 };\n[%s]" % (body, calls))
                 # as an operand and as an argument
-                out.append("functie f(n) { stel w = 10 + (%s); w }\n[%s]" % (body, calls) if "stel t" not in body else "functie f(n) { %s; 5 }\n[%s]" % (body, calls))
+                out.append("functie f(n) { stel w = 10 + (%s); w };\n[%s]" % (body, calls) if "stel t" not in body else "functie f(n) { %s; 5 };\n[%s]" % (body, calls))
+                # an early `antwoord` taken while the CALLEE holds pending operands (left operand, list elements, arguments)
+                out.append("functie k(a, b, c) { a + b + c };\nfunctie f(n) { [1, 2, %s, 4] };\nfunctie g(n) { k(100, %s, 3) };\n[%s, g(0), g(7)]" % (body, body, calls))
             # a loop body ending in such a chain, inside a function and at top level
-            out.append("functie f(n) { stel i = 0; stel s = 0; zolang i < 3 { i += 1; s = s + i; als i < 2 { %s } anders { %s } }; [i, s] }\n[f(0), f(1), f(7)]" % (a, b))
+            out.append("functie f(n) { stel i = 0; stel s = 0; zolang i < 3 { i += 1; s = s + i; als i < 2 { %s } anders { %s } }; [i, s] };\n[f(0), f(1), f(7)]" % (a, b))
     return out
 
 
